@@ -28,6 +28,9 @@ pub enum Inj {
 #[derive(Clone, Debug)]
 pub enum AStep {
   Inject { w: usize, inj: Inj },
+  /// two consecutive changes of one writer whose datagrams arrive in the opposite order (the earlier one was lost
+  /// and re-sent): a reliable reader makes them available in sequence-number order once both are there
+  InjectSwapped { w: usize, first: Inj, second: Inj },
   Op(ReadOp),
 }
 
@@ -45,6 +48,7 @@ pub fn case_json(c: &ApiCase) -> Value {
     "flavor": format!("{:?}", c.flavor), "reliable": c.reliable, "history": c.history, "writers": c.nwriters,
     "steps": c.steps.iter().map(|s| match s {
       AStep::Inject{w, inj} => json!({"inject": format!("w{w} {inj:?}")}),
+      AStep::InjectSwapped{w, first, second} => json!({"inject_arriving_swapped": format!("w{w} {first:?} then {second:?}")}),
       AStep::Op(op) => json!({"op": format!("{op:?}")}),
     }).collect::<Vec<_>>()
   })
@@ -141,6 +145,21 @@ pub fn gen_case_c08(rng: &mut Rng, max_steps: u64) -> ApiCase {
         known_by_writer[w].insert(key);
         pending_known.insert(key);
       }
+      if reliable && !matches!(inj, Inj::DisposeHash { .. }) && rng.chance(1, 5) {
+        // a second change, usually of the same instance, that overtakes this one on the wire
+        let key2 = if keyed && rng.chance(1, 4) { rng.below(nkeys as u64) as u32 } else { key };
+        let second = if keyed && rng.chance(1, 3) {
+          Inj::DisposeKey { key: key2 }
+        } else {
+          let id = next_id;
+          next_id += 1;
+          Inj::Value { key: key2, id, blob_len: rng.below(9) as usize }
+        };
+        known_by_writer[w].insert(key2);
+        pending_known.insert(key2);
+        steps.push(AStep::InjectSwapped { w, first: inj, second });
+        continue;
+      }
       steps.push(AStep::Inject { w, inj });
     }
   }
@@ -224,6 +243,7 @@ pub struct ApiOutcome {
   pub sig: u64,
   pub view_judged: u64,
   pub multi_gen: bool,
+  pub swapped_arrivals: u64,
 }
 
 fn build_data(w: usize, keyed: bool, sn: i64, inj: &Inj, reader_eid: [u8; 4], ts: u64, rng: &mut Rng) -> Vec<u8> {
@@ -297,7 +317,7 @@ pub fn run_case_c08(case: &ApiCase, acc: &mut Acc, tag: &Value, rng: &mut Rng) -
     ..Default::default()
   };
   let mut sn_next = vec![1i64; case.nwriters];
-  let mut out = ApiOutcome { results: 0, samples_seen: 0, sig: 0, view_judged: 0, multi_gen: false };
+  let mut out = ApiOutcome { results: 0, samples_seen: 0, sig: 0, view_judged: 0, multi_gen: false, swapped_arrivals: 0 };
   let mut sigbuf: Vec<u8> = vec![];
   let replay = || json!({"case": tag, "script": case_json(case)});
   let debug = std::env::var("VERIF_DEBUG").is_ok();
@@ -328,6 +348,26 @@ pub fn run_case_c08(case: &ApiCase, acc: &mut Acc, tag: &Value, rng: &mut Rng) -
           Inj::DisposeHash { key } => 0x30 | *key as u8,
           _ => 0x40,
         });
+      }
+      AStep::InjectSwapped { w, first, second } => {
+        let sn_a = sn_next[*w];
+        let sn_b = sn_a + 1;
+        sn_next[*w] += 2;
+        let bytes_b = build_data(*w, keyed, sn_b, second, reader_eid, ts_for(*w, sn_b), rng);
+        let bytes_a = build_data(*w, keyed, sn_a, first, reader_eid, ts_for(*w, sn_a), rng);
+        rb.inject(&bytes_b);
+        // reception timestamps have the resolution of the clock: make sure they differ
+        std::thread::sleep(std::time::Duration::from_micros(50));
+        rb.inject(&bytes_a);
+        out.swapped_arrivals += 1;
+        for (sn, inj) in [(sn_a, first), (sn_b, second)] {
+          match inj {
+            Inj::Value { key, id, .. } => model.arrive(*w, sn, *key, false, *id),
+            Inj::DisposeKey { key } | Inj::DisposeHash { key } => model.arrive(*w, sn, *key, true, 0),
+            _ => {}
+          }
+        }
+        sigbuf.push(0x50);
       }
       AStep::Op(op) => {
         sigbuf.push(0x80 | (fnv64(format!("{op:?}").as_bytes()) as u8 & 0x7f));
@@ -727,6 +767,7 @@ pub fn run_case_c09(case: &ApiCase, acc: &mut Acc, tag: &Value, rng: &mut Rng, b
           _ => {}
         }
       }
+      AStep::InjectSwapped { .. } => {} // not generated for C09
       AStep::Op(op) => {
         sigbuf.push(0x80 | (fnv64(format!("{op:?}").as_bytes()) as u8 & 0x7f));
         do_op(&mut rb, op, acc, &mut out, &mut expect_vals, &mut expect_disp, step_no);
